@@ -12,6 +12,9 @@ blocks, but only what the interlock depends on.
       B.listId     `last_band_id` in `Band::create`: new id = newest + 1 (0 if none)
       B.mkdir      `create_dir bN` (tolerant of AlreadyExists)
       B.head       `create_dir bN/i`, `write bN/BANDHEAD`: fails when the band directory is gone
+      B.lockCheck2 (only when `recheck`; the repair "backup looks for the gc lock again after creating
+                   its band") `list_dir ""`: a GC_LOCK file there ⇒ `GarbageCollectionLockHeld`; the
+                   band stays behind with a head and no tail
       B.listBlocks `block_dir()`: the in-memory `exists` set := present
       B.block g    `store_or_deduplicate`: g ∈ `exists` ⇒ NO I/O; else write g, insert into `exists`
       B.hunk       index hunk naming every needed block; fails when the band directory is gone
@@ -32,6 +35,10 @@ blocks, but only what the interlock depends on.
                    after the lock was written)
 
 Every event is one atomic step on the shared state.  Core only; no proofs here.
+
+The skeleton is parametric in `recheck : Bool` (`Config.recheck`, copied into `BSt.recheck`):
+`recheck = false` is the backup as it was when defect D7 was found (`B.head` is followed by
+`B.listBlocks`), `recheck = true` is the repaired backup (`B.head`, `B.lockCheck2`, `B.listBlocks`).
 -/
 namespace Conserve.Proto
 
@@ -47,7 +54,7 @@ structure Band where
 /-- Events (one per storage-operation class).  `bBlock g wrote`: `wrote = false` is the
 deduplication against the in-memory `exists` set, which performs no storage operation. -/
 inductive Ev
-  | bLockCheck | bListBasis | bListId | bMkdir | bHead | bListBlocks
+  | bLockCheck | bListBasis | bListId | bMkdir | bHead | bLockCheck2 | bListBlocks
   | bBlock (g : Nat) (wrote : Bool) | bHunk | bTail
   | gLast | gTailCheck | gLockCheck | gLockWrite | gListKeep | gReadRefs | gListBlocks
   | gStat (g : Nat) | gCheck | gRmBand (b : Nat) | gRmBlock (g : Nat) | gUnlock
@@ -55,10 +62,12 @@ inductive Ev
 
 /-- Program counter of the backup: the event it will perform next.  `blocks` covers the
 `B.block` events and, once every needed block is handled, `B.hunk`.  `refused` = the lock was
-present; `failed` = a write into the band directory failed (after `B.mkdir`). -/
+present at `B.lockCheck` (nothing written); `refused2` = the lock was present at `B.lockCheck2`
+(the new band stays: head, no tail, no references); `failed` = a write into the band directory
+failed (after `B.mkdir`). -/
 inductive BPc
-  | lockCheck | listBasis | listId | mkdir | head | listBlocks | blocks | tail
-  | done | refused | failed
+  | lockCheck | listBasis | listId | mkdir | head | lockCheck2 | listBlocks | blocks | tail
+  | done | refused | refused2 | failed
   deriving DecidableEq, Repr
 
 /-- Program counter of gc.  `measure` covers the `G.stat` events and then `G.check`;
@@ -78,6 +87,8 @@ structure BSt where
   newId : Nat := 0
   /-- the in-memory `exists` set of the `BlockDir` -/
   exists_ : List Nat := []
+  /-- the backup looks for the lock again after creating its band (never changes) -/
+  recheck : Bool := false
   deriving DecidableEq, Repr
 
 structure GSt where
@@ -114,11 +125,13 @@ structure Config where
   del : List Nat := []
   /-- blocks the new source needs -/
   needed : List Nat := []
+  /-- `false`: the backup before the repair of D7; `true`: the repaired backup -/
+  recheck : Bool := false
   deriving DecidableEq, Repr
 
 def Config.start (c : Config) : State :=
   { bands := c.bands, present := c.present, lock := c.lock,
-    b := { needed := c.needed }, g := { del := c.del } }
+    b := { needed := c.needed, recheck := c.recheck }, g := { del := c.del } }
 
 /-- `Archive::last_band_id`. -/
 def newestId : List Band → Option Nat
@@ -150,7 +163,7 @@ def newestClosed (bs : List Band) : Option Nat → Bool
   | some m => bs.any fun b => b.id == m && b.complete
 
 def BPc.fin : BPc → Bool
-  | .done | .refused | .failed => true
+  | .done | .refused | .refused2 | .failed => true
   | _ => false
 
 def GPc.fin : GPc → Bool
@@ -172,9 +185,17 @@ def stepB (p : State) : State :=
       b := { p.b with pc := .head }, log := .bMkdir :: p.log }
   | .head =>
     if hasBand p.bands p.b.newId then
-      { p with bands := p.bands.map (setHead p.b.newId)
-               b := { p.b with pc := .listBlocks }, log := .bHead :: p.log }
+      if p.b.recheck then
+        { p with bands := p.bands.map (setHead p.b.newId)
+                 b := { p.b with pc := .lockCheck2 }, log := .bHead :: p.log }
+      else
+        { p with bands := p.bands.map (setHead p.b.newId)
+                 b := { p.b with pc := .listBlocks }, log := .bHead :: p.log }
     else { p with b := { p.b with pc := .failed }, log := .bHead :: p.log }
+  | .lockCheck2 =>
+    -- src/backup.rs `backup`, after `Band::create`: a plain listing of the archive directory
+    if p.lock then { p with b := { p.b with pc := .refused2 }, log := .bLockCheck2 :: p.log }
+    else { p with b := { p.b with pc := .listBlocks }, log := .bLockCheck2 :: p.log }
   | .listBlocks =>
     { p with b := { p.b with pc := .blocks, exists_ := p.present, todo := p.b.needed },
              log := .bListBlocks :: p.log }
@@ -198,7 +219,7 @@ def stepB (p : State) : State :=
       { p with bands := p.bands.map (setComplete p.b.newId)
                b := { p.b with pc := .done }, log := .bTail :: p.log }
     else { p with b := { p.b with pc := .failed }, log := .bTail :: p.log }
-  | .done | .refused | .failed => p
+  | .done | .refused | .refused2 | .failed => p
 
 /-- One step of gc / delete (nothing if it has finished). -/
 def stepG (p : State) : State :=
@@ -259,15 +280,16 @@ def stepG (p : State) : State :=
 /-- Upper bound on the steps the backup still takes. -/
 def bRank (p : State) : Nat :=
   match p.b.pc with
-  | .lockCheck => p.b.needed.length + 8
-  | .listBasis => p.b.needed.length + 7
-  | .listId => p.b.needed.length + 6
-  | .mkdir => p.b.needed.length + 5
-  | .head => p.b.needed.length + 4
+  | .lockCheck => p.b.needed.length + 9
+  | .listBasis => p.b.needed.length + 8
+  | .listId => p.b.needed.length + 7
+  | .mkdir => p.b.needed.length + 6
+  | .head => p.b.needed.length + 5
+  | .lockCheck2 => p.b.needed.length + 4
   | .listBlocks => p.b.needed.length + 3
   | .blocks => p.b.todo.length + 2
   | .tail => 1
-  | .done | .refused | .failed => 0
+  | .done | .refused | .refused2 | .failed => 0
 
 /-- Upper bound on the steps gc still takes when nobody else moves. -/
 def gRank (p : State) : Nat :=
@@ -347,7 +369,8 @@ def garbage (c : Config) (g : Nat) : Prop :=
 def nextEvB (p : State) : Option Ev :=
   match p.b.pc with
   | .lockCheck => some .bLockCheck | .listBasis => some .bListBasis | .listId => some .bListId
-  | .mkdir => some .bMkdir | .head => some .bHead | .listBlocks => some .bListBlocks
+  | .mkdir => some .bMkdir | .head => some .bHead | .lockCheck2 => some .bLockCheck2
+  | .listBlocks => some .bListBlocks
   | .blocks => match p.b.todo with
     | g :: _ => some (.bBlock g (g ∉ p.b.exists_))
     | [] => some .bHunk
